@@ -326,7 +326,7 @@ def look_problems(o, space=None, grid=True):
                 bad.append(("space-closure", f"cell {c} lists agent {a}, which is not registered in this space's model"))
             elif listed.count(a) != 1:
                 bad.append(("space-closure", f"cell {c} lists agent {a} {listed.count(a)} times"))
-        if cap not in ("-", "0") and len(listed) > int(cap):
+        if cap != "-" and len(listed) > int(cap):   # capacity 0 is a capacity (repair SC3)
             bad.append(("space-closure", f"cell {c} holds {len(listed)} agents, capacity {cap}"))
     at = {a: [c[0] for c in cells if a in c[3]] for a in anames}
     for a, _uid, c in agents:
